@@ -56,14 +56,15 @@ def main():
             "name": "lean4-proof+correspondence",
             "path": "tools/check.py",
             "serves_properties": [c["property_id"] for c in checks],
-            "kind_free_text": "Lean 4 model (lean/ViaModel) + theorems (lean/ViaProofs) + extractor (tools/extract.py) + "
+            "kind_free_text": "Lean 4 model (lean/ViaModel) + theorems (lean/ViaProofs) + extractor of tables and structural facts (tools/extract.py) + "
+                              "translator of the parse_char / parse state machines from the current C++ into Lean (tools/cxx2lean.py -> lean/ViaGen, proved equal to the model in lean/ViaProofs/Trans) + "
                               "C++ harnesses (harness/) driven by generated operation scripts, diffed against the compiled "
                               "model driver (lake exe via_model)",
         }],
         "checks": checks,
         "not_applicable": na,
         "notes": "Every check rebuilds the harness from /repo's working tree (content-hash cache in .cache/) and re-checks "
-                 "the Lean proofs against a freshly regenerated Generated.lean. VERIF_SEED seeds every generator.",
+                 "the Lean proofs against a freshly regenerated Generated.lean and freshly translated ViaGen/*.lean. VERIF_SEED seeds every generator.",
     }
     with open(os.path.join(VERIF, "MANIFEST.json"), "w") as f:
         json.dump(manifest, f, indent=1)
